@@ -1111,7 +1111,9 @@ def inline_single_call_helpers(facts, rounds=2):
                 gb = g["body"]
                 if any(_DEPS_TY.search(gb["locals"][i]["ty"]) for i in range(1, gb["arg_count"] + 1)):
                     continue
-                if re.match(r"^std::result::Result<\(\), ", gb["locals"][0]["ty"]) or len(gb["blocks"]) > 400:
+                # a *public* check returning Result<(), _> is an anchor of its own (the spread / slippage / route guards); a private
+                # one is a stage of whatever calls it
+                if (re.match(r"^std::result::Result<\(\), ", gb["locals"][0]["ty"]) and str(g.get("vis") or "Public").startswith("Public")) or len(gb["blocks"]) > 400:
                     continue
                 caller = by_path[cpath]
                 t = caller["body"]["blocks"][cb]["term"]
@@ -1136,3 +1138,4 @@ def inline_single_call_helpers(facts, rounds=2):
         if not changed:
             break
     return facts, done
+
